@@ -106,7 +106,7 @@ def run_one(args):
         from .core import EngineLimit
         mod = load_contracts(pid)
         c = mod.CONTRACTS[idx]
-        out['key'] = c.key
+        out['key'] = c.oname
         out['name'] = getattr(c, 'label', None) or c.key
         repo = Repo(REPO)
         ex = Engine(repo, registry=getattr(mod, 'REGISTRY', {}),
@@ -213,6 +213,21 @@ def run_lemma(args):
         res = fn(Repo(REPO))
         for ob in res:
             discharge(ob)
+            if ob.verdict == 'refuted' and ob.meta.get('replay_fn') is not None and getattr(ob, 'z3model', None) is not None:
+                try:
+                    ob.meta['replay'] = ob.meta['replay_fn'](ob.z3model)
+                except Exception as e:
+                    ob.meta['replay'] = {'confirmed': None, 'error': repr(e)}
+            if ob.verdict == 'refuted' and ob.meta.get('var') is not None:
+                import z3
+                from .regex import compile_re
+                from .core import Obligation
+                for k in load_known(pid):
+                    if k.get('status') == 'known' and k.get('obligation') == ob.name and k.get('exclude_regex'):
+                        lang = compile_re(k['exclude_regex']).language('fullmatch')
+                        ob2 = Obligation(ob.name, ob.kind, ob.hyps + [z3.Not(z3.InRe(ob.meta['var'], lang))], ob.goal, 0)
+                        discharge(ob2)
+                        ob.meta.setdefault('excl_verdicts', []).append(ob2.verdict)
             out['obligations'].append({'name': ob.name, 'kind': ob.kind, 'instances': 1,
                                        'proved': int(ob.verdict == 'proved'),
                                        'refuted': int(ob.verdict == 'refuted'),
@@ -220,7 +235,8 @@ def run_lemma(args):
                                        'backends': {ob.backend: 1}, 'secs': ob.secs,
                                        'model': ob.model if ob.verdict == 'refuted' else None,
                                        'expr': ob.meta.get('expr'), 'inputs': ob.meta.get('witness_inputs'),
-                                       'replay': ob.meta.get('replay')})
+                                       'replay': ob.meta.get('replay'),
+                                       'excl_verdicts': ob.meta.get('excl_verdicts')})
     except Exception as e:
         from .core import EngineLimit
         if isinstance(e, EngineLimit):
@@ -340,7 +356,10 @@ def main(argv=None):
                     if k.get('exclude') and ev is not None and all(v == 'proved' for v in ev):
                         known_hits.append((k, o))
                         return
-                    if not k.get('exclude'):
+                    if k.get('exclude_regex') and ev is not None and all(v == 'proved' for v in ev):
+                        known_hits.append((k, o))
+                        return
+                    if not k.get('exclude') and not k.get('exclude_regex'):
                         known_hits.append((k, o))
                         return
             # replay
@@ -365,13 +384,17 @@ def main(argv=None):
             rpath = os.path.join(VERIF, 'replays', f'{pid}_{h}.json')
             inbase = baseline is not None and o['name'] in baseline.get('proved', [])
             changed = baseline is not None and source_hash is not None and \
-                baseline.get('hashes', {}).get(owner) not in (None, source_hash)
+                baseline.get('hashes', {}).get(owner.split('[')[0]) not in (None, source_hash)
             rp['in_baseline'] = inbase
             rp['source_changed_since_baseline'] = changed
             with open(rpath, 'w') as fp:
                 json.dump(rp, fp, indent=1, default=str)
             if confirmed:
                 violations.append((o['name'], rpath, ''))
+            elif o['kind'] in ('inv-init', 'inv-pres', 'pre@call', 'variant') and not inbase:
+                # an internal proof obligation (my invariant / callee precondition) that never
+                # held and has no replayed witness: the proof is undecided, not the code wrong
+                undecided.append(o['name'] + ' (internal proof obligation refuted, no replayed input)')
             elif confirmed is False and not o.get('havoc_on_path', True):
                 errors.append(f'refuted obligation {o["name"]} does not replay on a havoc-free path: encoding error')
             elif inbase and changed:
@@ -442,7 +465,7 @@ def main(argv=None):
 
     # baseline handling
     names_proved = sorted(o['name'] for o in all_obls if o['proved'] == o['instances'])
-    hashes = {f['function']: f.get('source_hash') for f in functions if f.get('source_hash')}
+    hashes = {f['function'].split('[')[0]: f.get('source_hash') for f in functions if f.get('source_hash')}
     if a.write_baseline:
         os.makedirs(os.path.join(VERIF, 'baseline'), exist_ok=True)
         with open(os.path.join(VERIF, 'baseline', f'{pid}.json'), 'w') as fp:
